@@ -732,3 +732,6 @@ def check_error(case):
         if nm and nm not in out.msg:
             viol.append((f"error-does-not-name-reference:{case['err']}:{case['cell']}", out.msg[:200]))
     return {"outcome": "reject-expected" if out.kind == "reject" else out.kind, "nt": out.kind == "reject", "viol": viol, "tr": ntr}
+
+# as-built additions of the seventh wave (reported with the bound in the evidence)
+BOUND = {k: v + "; seventh wave: " + 'a seven-argument indexed-repeat(); references in the translated labels of choices (two languages); capitalised names; a last-saved reference in the seed parameter alone' for k, v in BOUND.items()}
